@@ -43,7 +43,15 @@ def correspondence(ctx, violations, known_hits):
     cases = gen(ctx.tier, ctx.seed)
     d = clicommon.fresh_dir(ctx, "cli")
     model = ctx.run_model([C06.obj_case(0, t) for _, t in cases], tag="obj")
-    dests = ["absent", "existing", "devfull", "missingdir", "isdir"]
+    dests = ["absent", "existing", "existing-empty", "existing-prefix", "existing-extended", "devfull", "missingdir", "isdir"]
+
+    def pre_contents(i, dest_kind):
+        """What the destination holds before `compile` for the `existing*` kinds: unrelated bytes, nothing, a proper PREFIX
+        of the object file this source produces, or that object file followed by stale words."""
+        mo = [int(x, 16) for x in model[i][0].split()]
+        exp = bytes(mo[2:2 + mo[1]]) if mo[0] == 0 else bytes.fromhex("3000f025")
+        return {"existing": OLD, "existing-empty": b"", "existing-prefix": exp[:max(2, len(exp) - 2)],
+                "existing-extended": exp + bytes.fromhex("1021f026f025")}[dest_kind]
 
     def job(i, dest_kind):
         tag, text = cases[i]
@@ -52,8 +60,8 @@ def correspondence(ctx, violations, known_hits):
             open(os.path.join(sub, "p.asm"), "w").write(text)
             if dest_kind == "absent":
                 dest = os.path.join(sub, "out.lc3")
-            elif dest_kind == "existing":
-                dest = os.path.join(sub, "out.lc3"); open(dest, "wb").write(OLD)
+            elif dest_kind.startswith("existing"):
+                dest = os.path.join(sub, "out.lc3"); open(dest, "wb").write(pre_contents(i, dest_kind))
             elif dest_kind == "devfull":
                 dest = "/dev/full"
             elif dest_kind == "missingdir":
@@ -61,7 +69,7 @@ def correspondence(ctx, violations, known_hits):
             else:
                 dest = os.path.join(sub, "adir"); os.makedirs(dest, exist_ok=True)
             rc, so, se = clicommon.run_cli(exe, ["compile", "p.asm", dest], sub)
-            if dest_kind in ("absent", "existing"):
+            if dest_kind == "absent" or dest_kind.startswith("existing"):
                 after = open(dest, "rb").read() if os.path.exists(dest) else None
             elif dest_kind == "missingdir":
                 after = "exists" if os.path.exists(dest) else None
@@ -75,7 +83,7 @@ def correspondence(ctx, violations, known_hits):
     jobs, meta = [], []
     for i in range(len(cases)):
         for dk in dests:
-            if dk in ("devfull", "missingdir", "isdir") and cases[i][0].startswith("emit-error") and i % 7 != 0:
+            if dk in ("devfull", "missingdir", "isdir", "existing-empty", "existing-prefix", "existing-extended") and cases[i][0].startswith("emit-error") and i % 7 != 0:
                 continue      # destination faults are orthogonal to the failing statement position: sample them
             jobs.append(job(i, dk)); meta.append((i, dk))
     res = clicommon.parallel(jobs)
@@ -85,8 +93,8 @@ def correspondence(ctx, violations, known_hits):
         mo = [int(x, 16) for x in model[i][0].split()]
         exp_bytes = bytes(mo[2:2 + mo[1]]) if mo[0] == 0 else None
         ev += 1
-        before = {"absent": None, "existing": OLD, "devfull": "chardev", "missingdir": None, "isdir": "dir"}[dk]
-        if dk in ("absent", "existing"):
+        before = pre_contents(i, dk) if dk.startswith("existing") else {"absent": None, "devfull": "chardev", "missingdir": None, "isdir": "dir"}[dk]
+        if dk == "absent" or dk.startswith("existing"):
             good = (rc == 0 and mo[0] == 0 and after == exp_bytes) or (rc != 0 and mo[0] != 0 and after == before)
         else:
             good = (rc != 0 and after == before)          # the destination cannot be written: must fail and change nothing
@@ -108,7 +116,7 @@ def correspondence(ctx, violations, known_hits):
         "evaluations": ev, "distinct_nontrivial": len(sigs),
         "rule": "fault enumeration at the CLI: an out-of-range label reference injected at EVERY statement position 0..n of programs "
                 "with n up to 40 (several PC-relative instructions), plus parse/lex/label errors and valid programs, x destination "
-                "absent / pre-existing with known contents / /dev/full / missing directory / a directory in place of the file; "
+                "absent / pre-existing with unrelated contents, empty, a proper prefix of the new object file, the new object file followed by stale words / /dev/full / missing directory / a directory in place of the file; "
                 "observed: exit status and the bytes at the destination before and after; distinct = distinct (class, destination, exit==0)",
         "exhaustive": True, "exhaustive_over": "failing statement position 0..n for each listed n",
         "histogram": hist, "samples": samples, "mismatches": nv,
